@@ -73,6 +73,14 @@ def invalid_ops(rm, extras, full=True):
                 ops.append(py("setattr(m.%s, %r, 1)" % (s, n), r)) if n else None
             if "x" in rm.space(s).cells:
                 ops.append(py("m.%s.x.rename(%r)" % (s, n), r))
+    # names that come from the definition instead of the name argument (accepted with an automatic name, or
+    # rejected - never taken over)
+    for s in (spaces[:2] if full else []):
+        r = "invalid-name"
+        ops.append(py("m.%s.new_cells(formula='def _f(a):\\n    return a')" % s, r))
+        ops.append(py("m.%s.new_cells('1abc', formula='def _g(a):\\n    return a')" % s, r))
+        ops.append(py("m.%s.new_cells(None, formula='def _space(a):\\n    return a')" % s, r))
+        ops.append(py("m.%s.new_cells(formula='def __init__(a):\\n    return a')" % s, r))
     # 2. clashing names
     for s in spaces:
         sp = rm.space(s)
@@ -182,6 +190,11 @@ def invalid_ops(rm, extras, full=True):
         ops.append(py("m.C.k = None", r))
         ops.append(py("m.A.z[1, 2] = 3", r))
         ops.append(py("m.A.T.tc.value = None", r, setup="m.A.T.tc.allow_none = False"))
+        # allow_none is three-valued and resolved cells -> space -> model: an explicit False on the cells wins
+        ops.append(py("m.A.z[1] = None", r, setup="m.A.z.allow_none = False; m.A.allow_none = True"))
+        ops.append(py("m.C.k.value = None", r, setup="m.C.k.allow_none = False; m.allow_none = True"))
+        ops.append(py("m.C.k = None", r, setup="m.C.k.allow_none = False; m.C.allow_none = True"))
+        ops.append(py("m.A.z[1] = None", r, setup="m.A.allow_none = False; m.allow_none = True"))
         ops.append(py("m.C.k.formula = 5", "malformed-formula"))           # cells holding an input
         ops.append(py("m.A.z.formula = len", "malformed-formula"))
     # 8. removing what is not a base, deleting what does not exist
